@@ -45,6 +45,9 @@ type pathState struct {
 	callLog   []string
 	forged    map[*Term]bool
 	sectorAcc map[*value][]saNode
+	entropy   []*Term // frand.Entropy* draws (pairwise distinct)
+	watched   map[*value]string // cells of watched package-level variables
+	writes    []string          // writes to watched cells: "variable in function"
 }
 
 type hashApp struct {
